@@ -18,6 +18,9 @@
 EXTENDS IntCtl, SM83, TLC, Json, IOUtils
 
 Scens == ndJsonDeserialize(IOEnv.TRACE)
+\* MODE: "CTL" (default) judges what C04/C05 state; on program traces of ROMs "C01"/"C02"/"C03" additionally judge
+\* the instruction's effect / cycle count / access timing against SM83!Exec, like Cpu_Trace does for isolated instructions
+Mode == IF "MODE" \in DOMAIN IOEnv THEN IOEnv.MODE ELSE "CTL"
 
 VARIABLES sc, l, st,
           lenient   \* the execution has entered a situation the statement does not cover: the rest of the scenario is not judged
@@ -30,7 +33,11 @@ Regs(s) == [a |-> s[1], f |-> s[2], b |-> s[3], c |-> s[4], d |-> s[5], e |-> s[
 
 Init == /\ sc \in 1..Len(Scens) /\ l = 1
         /\ LET r == Scens[sc].reset IN
-           st = [ime |-> r[1] = 1, eiDelay |-> FALSE, halted |-> FALSE, haltBug |-> FALSE, ie |-> Bits(r[2]), iflg |-> Bits(r[3])]
+           IF Len(r) >= 8
+           THEN \* a window into a running program: whether an EI is in flight is not observable, TLC infers it
+                \E d \in BOOLEAN :
+                   st = [ime |-> r[1] = 1, eiDelay |-> d /\ r[1] # 1, halted |-> r[7] = 1, haltBug |-> r[8] = 1, ie |-> Bits(r[2]), iflg |-> Bits(r[3])]
+           ELSE st = [ime |-> r[1] = 1, eiDelay |-> FALSE, halted |-> FALSE, haltBug |-> FALSE, ie |-> Bits(r[2]), iflg |-> Bits(r[3])]
         /\ lenient = FALSE
 
 Pre(e) == Regs(e[1])
@@ -86,6 +93,14 @@ WakeStep(e, s0) ==
    /\ st' = [AfterWake(s0) EXCEPT !.iflg = @ \cup RaisedUpTo(e, N(e))]
    /\ Observed(e, st')
 
+\* a unit recorded from a ROM may be outside the instruction-level precondition (its data addresses overlap its own
+\* bytes; STOP): then only the control state is followed
+Judged(e) == IF Len(e) >= 10 THEN e[10] = 1 ELSE TRUE
+\* the data accesses of the bus log: everything but the reads of the instruction's own bytes
+DataAcc(e, pre, op) ==
+   LET fetch == {W16(pre.pc + k) : k \in 0..(ILen(op) - 1)}  bus == Bus(e) IN
+   {<<bus[i][1], bus[i][2], bus[i][3], bus[i][4]>> : i \in {j \in 1..Len(bus) : ~(bus[j][2] = 0 /\ bus[j][3] \in fetch)}}
+
 IKindOf(op) == CASE op = 251 -> "ei" [] op = 243 -> "di" [] op = 217 -> "reti" [] op = 118 -> "halt" [] OTHER -> "other"
 
 InstrStep(e, s0) ==
@@ -102,13 +117,17 @@ InstrStep(e, s0) ==
        ik == IKindOf(op)
        s1 == AfterInstr(s0, ik, {})
        free == (s0.haltBug /\ op \in {203, 118}) \/ HaltAfterEiIsFree(s0, ik)
-   IN /\ op \notin Undefined /\ op # 16
-      /\ lenient' = free
-      /\ IF free
+   IN /\ (Judged(e) => (op \notin Undefined /\ op # 16))
+      /\ lenient' = (free \/ op = 16)
+      /\ IF free \/ op = 16
          THEN \* halt bug followed by the CB prefix or another HALT, or EI directly followed by HALT: not covered by the statement
               st' = st
-         ELSE /\ Post(e).pc = res.r.pc /\ Post(e).sp = res.r.sp       \* control flow of the instruction itself
-              /\ (s0.haltBug => res.r = Post(e))                      \* the doubly-read byte shows in the registers
+         ELSE /\ (Judged(e) => (Post(e).pc = res.r.pc /\ Post(e).sp = res.r.sp))       \* control flow of the instruction itself
+              /\ (s0.haltBug /\ Judged(e) => res.r = Post(e))                        \* the doubly-read byte shows in the registers
+              /\ (Judged(e) /\ Mode = "C01" => /\ res.r = Post(e) /\ res.r.f % 16 = 0
+                                               /\ {<<a[2], a[3], a[4]>> : a \in res.acc} = {<<a[2], a[3], a[4]>> : a \in DataAcc(e, pre, op)})
+              /\ (Judged(e) /\ Mode = "C02" => N(e) = res.n)
+              /\ (Judged(e) /\ Mode = "C03" => {<<a[1], a[2], a[3]>> : a \in res.acc} = {<<a[1], a[2], a[3]>> : a \in DataAcc(e, pre, op)})
               /\ st' = Fold(s1, e, 1, N(e))
               /\ Observed(e, st')
 
